@@ -535,7 +535,11 @@ def trim_start(ck, prog, f, prec, ecvt_call, points):
                 return None if b is None else env["s"] + b
         return None
     a4 = C.call_args(ecvt_call)
-    base = a4[4].strip_all_casts().get("path") if len(a4) > 4 else None
+    # the digit buffer handed to the generator: its `char *` parameter, wherever it sits in the parameter list
+    g_ = prog.fn(ecvt_call.get("callee") or "")
+    bi_ = [i for i, p_ in enumerate(g_.params) if (p_["type"].get("ct") or "").replace(" ", "") == "char*"] if g_ is not None else []
+    bi_ = bi_[0] if bi_ else 4
+    base = a4[bi_].strip_all_casts().get("path") if len(a4) > bi_ else None
     st = K.site(f, "trim-starts-at-last-digit", 0)
     # the trim start: `base = &base[<idx>]` (or base += idx) at the join after the arms
     starts = [n for n, t in C.stores(f) if t.get("path") == base and n.get("op") == "=" and
@@ -609,9 +613,22 @@ def rule_g4(ck, prog, S):
     outs = [p["name"] for p in f.params if p["type"].get("tk") == "ptr" and p["name"] in ("decpt", "sign")]
     st = K.site(f, "out-parameters", 0)
     probs = []
-    if len(outs) != 2:
-        ck.anchor_lost("C16-G4", "out-parameters decpt/sign of scpi_ecvt")
-        return True
+    expvar = "*decpt"
+    if "decpt" not in outs:
+        # the decimal exponent may be delivered as the function's value instead: every return hands back the same integer
+        # local (the sign is the caller's business then, unless a sign out-parameter exists)
+        rets_ = [n for n in f.nodes.values() if n.k == "ReturnStmt" and n.ch and n.id in f.where]
+        rv = {n.child(0).strip_all_casts().get("path") for n in rets_ if n.child(0).strip_all_casts().k == "DeclRefExpr" and
+              n.child(0).strip_all_casts()["decl"]["kind"] == "local"}
+        if f.ret.get("tk") == "int" and rets_ and len(rv) == 1 and all(n.child(0).strip_all_casts().get("path") in rv for n in rets_):
+            expvar = sorted(rv)[0]
+            first_store = [n for n, t in C.stores(f) if t.get("path") == expvar]
+            reach0 = pg.reachable([pg.entry], blocked_edge=lambda e: e.kind == "elem" and e.node in first_store)
+            if any(pg.before(n) in reach0 for n in rets_):
+                probs.append("a path returns `%s` before it was given a value" % expvar)
+        else:
+            ck.anchor_lost("C16-G4", "out-parameters decpt/sign of scpi_ecvt")
+            return True
     for o in outs:
         ptr_changes = [n for n, t in C.stores(f) if t.k == "DeclRefExpr" and t.get("path") == o]
         if ptr_changes:
@@ -626,7 +643,8 @@ def rule_g4(ck, prog, S):
     if probs:
         ck.violated("C16-G4", st, K.loc(f), sorted(set(probs))[0], {"all": sorted(set(probs))})
     else:
-        ck.holds("C16-G4", st, K.loc(f), "*decpt and *sign stored on every path; pointers unchanged")
+        ck.holds("C16-G4", st, K.loc(f), "*decpt and *sign stored on every path; pointers unchanged" if expvar == "*decpt" else
+                 "the decimal exponent `%s` is returned on every path%s" % (expvar, "; *sign stored on every path" if "sign" in outs else ""))
     # rounding
     st = K.site(f, "rounding-carry", 0)
     probs = []
@@ -645,7 +663,7 @@ def rule_g4(ck, prog, S):
         inb = lambda n: body is not None and f.where[n.id][0].id in body
         z = [n for n, t in C.stores(f) if inb(n) and n.get("op") == "=" and C.const_of(n.child(1)) == ord("0")]
         one = [n for n, t in C.stores(f) if inb(n) and n.get("op") == "=" and C.const_of(n.child(1)) == ord("1")]
-        inc = [n for n, t in C.stores(f) if inb(n) and n.k == "UnaryOperator" and n.get("op") == "++" and t.get("path") == "*decpt"]
+        inc = [n for n, t in C.stores(f) if inb(n) and n.k == "UnaryOperator" and n.get("op") == "++" and t.get("path") == expvar]
         car = [n for n, t in C.stores(f) if inb(n) and n.k == "UnaryOperator" and n.get("op") == "++" and t.k == "ArraySubscriptExpr"]
         if not z:
             probs.append("an overflowing digit is not reset to '0'")
